@@ -2,8 +2,9 @@
    Directives used: those of ExtrOcamlBasic only (bool, option, unit, list, prod, sumbool, sumor);
    no Extract Constant; Z / positive stay as extracted inductives. *)
 Require Import ExtrOcamlBasic.
-Require Import Base Fixed Panic.
+Require Import Base Fixed Panic Curve.
 Extraction Language OCaml.
 Extraction "extract/model.ml"
   p_pause p_unpause p_unpause_if_expired p_is_expired p_can_pause c_is_expired ix_propagate
-  ix_panic_pause ix_panic_unpause ix_panic_unpause_permissionless is_protocol_paused mkP.
+  ix_panic_pause ix_panic_unpause ix_panic_unpause_permissionless is_protocol_paused mkP
+  ir_validate calc_interest_rate mpc legacy_curve.
